@@ -144,8 +144,11 @@ PROPS['C08'] = {
     'quick_s': 40, 'thorough_s': 900,
     'level_quick': 'exploration', 'level_thorough': 'exploration',
     'rule': 'one evaluation = one seeded loop program (registrations, operations bound to the n-th invocation of a callback, external '
-            'events at virtual times, asynchronous signals at libc-call indices; seeded clock base/resolution, EINTR and shuffled/shortened '
-            'epoll batches) run on the real qb_loop against a registration model; non-trivial = at least two callbacks over at least two '
+            'events at virtual times, asynchronous signals at libc-call indices; seeded clock base/resolution, EINTR - at once or after part of the '
+            'wait - and shuffled/shortened epoll batches; callbacks returning any value of the documented class, negative returns with the '
+            'descriptor kept open, second adds of watched descriptors, timers without a handle, job deletes naming a timer, level changes of '
+            'handlers with deliveries on their way, a second loop instance run from a callback, the loop run again after a stop; one run in '
+            'fourteen instead has several threads adding timers at once) run on the real qb_loop against a registration model; non-trivial = at least two callbacks over at least two '
             'iterations; distinct = distinct hash of the event sequence',
     'level_text': 'seeded search over add/modify/delete histories issued from outside and inside callbacks, with readiness, signals and time '
                   'under simulator control; exactly-once, never-after-delete, stale-handle, FIFO and stop oracles plus ASan; samples histories',
@@ -269,7 +272,9 @@ STUB_IPC = ['process identity, liveness and death (sim pids; a killed process ha
             'file ownership (chown ledger)', 'clock, sleeping, blocking in poll/epoll_wait/sem_wait', 'thread/process scheduling', 'random()']
 IPC_RULE = ('one evaluation = one seeded (scripts, schedule, faults) triple in one OS process: a server sim-process (real qb_loop + qb_ipcs '
             'service; its application layer is driven by the plan), 1..3 client sim-processes running scripts against qb_ipcc, %s; tasks '
-            'interleave at libc calls under the seeded scheduler; non-trivial = %s; distinct = distinct fingerprint of the (yield site, '
+            'interleave at libc calls under the seeded scheduler (negotiated maxima include page-filling ones, callbacks return any value of '
+            'the documented class, statistics are read and cleared, a slow msg_process lets hundreds of requests pile up, EINTR comes at '
+            'once or after part of a wait, a close of a number that is not open is reported); non-trivial = %s; distinct = distinct fingerprint of the (yield site, '
             'task switched to) sequence')
 
 def _ipc(extra_parties, nontrivial, **kw):
